@@ -334,6 +334,59 @@ func c01Worker(c *core.Collector, x *Ctx) {
 		c.Count("special_count_sweep_cases", 1)
 	})
 	c.Floor("special_count_sweep_cases", 1000)
+	// header fields that need escaping x EVERY body length: reply IDs and platform serials with 7d / 7e in the high byte, the low
+	// byte or both, both layouts, bodies escape-free and with a dozen specials (anything that peeks at header offsets in the
+	// escaped bytes, or sizes buffers from them, is off by the number of escapes in front)
+	{
+		ids := []uint16{0x807e, 0x807d, 0x7e02, 0x7d03, 0x7e7e, 0x7d7d, 0x7e7d, 0x8001}
+		sers := []uint16{0x1234, 0x7e00, 0x007d, 0x7d7e}
+		type hj struct {
+			id, ser uint16
+			v2019   bool
+			l, k    int
+		}
+		var hjobs []hj
+		for _, id := range ids {
+			for si, ser := range sers {
+				if id == 0x8001 && si == 0 {
+					continue
+				}
+				if id != 0x8001 && si != 0 && c.Thorough() == false && (int(id)+si)%2 == 0 {
+					continue
+				}
+				for _, v := range []bool{false, true} {
+					for l := 0; l <= 1023; l++ {
+						hjobs = append(hjobs, hj{id, ser, v, l, 0})
+						if l >= 12 && l%3 == 0 {
+							hjobs = append(hjobs, hj{id, ser, v, l, 12})
+						}
+					}
+				}
+			}
+		}
+		core.ParallelFor(len(hjobs), ncpu(), func(i int) {
+			j := hjobs[i]
+			r := core.NewRand(c.Seed, "c01hdr", uint64(i))
+			n := 6
+			if j.v2019 {
+				n = 10
+			}
+			bcd := make([]byte, n)
+			for q := range bcd {
+				bcd[q] = byte(r.Intn(10))<<4 | byte(r.Intn(10))
+			}
+			src := ref.Build(ref.Params{ID: 0x0200, V2019: j.v2019, VersionByt: 1, BCD: bcd, Serial: 7, Body: []byte{1}})
+			body := make([]byte, j.l)
+			for q := range body {
+				body[q] = byte(0x10 + r.Intn(0x60))
+			}
+			for _, pos := range r.Perm(j.l)[:min(j.k, j.l)] {
+				body[pos] = []byte{0x7e, 0x7d}[r.Intn(2)]
+			}
+			run(c01Case{Kind: "c01", Src: core.Hex(src), ReplyID: j.id, PSerial: j.ser, Body: core.Hex(body), Class: "escaped-header-fields-x-every-length"})
+		})
+		c.Count("escaped_header_field_cases", int64(len(hjobs)))
+	}
 	// long run: ONE decoded header object re-used for 70 000 consecutive Encode calls (serials across the wrap, bodies of all
 	// classes): state that an encoder might keep between calls (pooled buffers, counters, cached escapes) gets a long history
 	for hv := 0; hv < 2; hv++ {
